@@ -542,12 +542,20 @@ def header_wire(kind: dict, wire: str) -> str:
     return wire
 
 
-def endpoints(data: Any) -> dict[str, Any]:
+def endpoints(data: Any) -> dict[Any, Any]:
+    """Generated endpoints by (method, path) - the identity the *document* gives an operation (operationId is optional)."""
     out = {}
     for tag, coll in data.endpoint_collections_by_tag.items():
         for ep in coll.endpoints:
-            out.setdefault(ep.name, (str(ep.tags[0]), ep))
+            out.setdefault((str(ep.method).lower(), _norm_path(str(ep.path))), (str(ep.tags[0]), ep))
     return out
+
+
+def _norm_path(path: str) -> str:
+    """Placeholders compare by position: the generator spells them with the Python names of the parameters."""
+    import re
+
+    return re.sub(r"\{[^}]*\}", "{}", path)
 
 
 def _operation_params(doc: dict, path: str, method: str) -> list[dict]:
@@ -580,12 +588,12 @@ def endpoint_harness(doc: dict, package: str, data: Any, cfg: Any, list_max: int
         for method, op in item.items():
             if method not in ("get", "put", "post", "delete", "options", "head", "patch", "trace"):
                 continue
-            opid = op.get("operationId")
-            if opid is None or opid not in eps or (only and opid not in only):
-                if opid is not None and opid not in eps:
+            opid = op.get("operationId") or f"{method} {path}"
+            if (method, _norm_path(path)) not in eps or (only and opid not in only):
+                if (method, _norm_path(path)) not in eps:
                     meta[opid] = {"skipped": "not generated (diagnosed)"}
                 continue
-            tag, ep = eps[opid]
+            tag, ep = eps[(method, _norm_path(path))]
             modname = str(utils.PythonIdentifier(ep.name, cfg.field_prefix))
             alias = f"op_{modname}"
             imports.add(f"from {package}.api.{tag} import {modname} as {alias}")
